@@ -134,10 +134,13 @@ package hamt
 //@ ensures walked-is-monotone: forall w Ref :: old(walked(w)) ==> walked(w)
 //@ inst walked-is-monotone: w: w
 //@ ensures load-failure-is-returned: (err == nil ==> loadFailed == old(loadFailed)) && (old(loadFailed) ==> loadFailed)
+//@ ensures the-stores-error-is-returned-as-is: !old(loadFailed) && loadFailed ==> err == lastLoadErr
 //@ ensures at-most-one-request: old(loads) <= loads && loads <= old(loads) + 1
 //@ ensures err != nil ==> result == nil
 
 //@ func (*hamt._UnixFSHAMTShard).lookup
+//@ prop C12
+//@ ensures the-stores-error-is-returned-as-is: !old(loadFailed) && loadFailed ==> err == lastLoadErr
 //@ at call (*hamt._UnixFSHAMTShard).lookup#1 assert one-request-per-level: old(loads) <= loads && loads <= old(loads) + 1 && hv.consumed >= old(hv.consumed) + 1 && hv.consumed <= len(hv.b) * 8
 //@ decreases len(hv.b) * 8 - hv.consumed
 
@@ -199,13 +202,16 @@ package hamt
 // C02 / C03 / C15: the sharded directory resolves a path segment or a key node through the NAME it
 // spells (never positionally); LookupByString hashes exactly the key it was given and walks with it.
 //@ func (*hamt._UnixFSHAMTShard).LookupByString
-//@ prop C02 C03 C15
+//@ prop C02 C03 C12 C15
+//@ ensures the-stores-error-is-returned-as-is: !old(loadFailed) && loadFailed ==> err == lastLoadErr
 //@ at return ghost lastKey(n) = key
 //@ ensures looks-up-this-key: lastKey(n) == key
 //@ at call (*hamt._UnixFSHAMTShard).lookup#1 assert walks-with-this-key-from-the-first-hash-bit: callee_key == key && callee_hv.consumed == 0
 //@ func (*hamt._UnixFSHAMTShard).LookupBySegment
-//@ prop C02 C03 C15
+//@ prop C02 C03 C12 C15
+//@ ensures the-stores-error-is-returned-as-is: !old(loadFailed) && loadFailed ==> err == lastLoadErr
 //@ ensures segment-is-looked-up-by-the-name-it-spells: lastKey(n) == segString(seg)
 //@ func (*hamt._UnixFSHAMTShard).LookupByNode
-//@ prop C02 C03 C15
+//@ prop C02 C03 C12 C15
+//@ ensures the-stores-error-is-returned-as-is: !old(loadFailed) && loadFailed ==> err == lastLoadErr
 //@ ensures key-node-is-looked-up-by-its-string: err == nil ==> lastKey(n) == nodeString(key)
